@@ -50,9 +50,21 @@ func vpC09Same(a, b vpC09Result) bool {
 // Natively the same operations run in G goroutines (under the race detector).
 func VP_C09_shared() {
 	N, D := vpParam("N"), vpParam("D")
-	budget := N
-	prog := vpGenProg(&budget, D)
-	tree := prog.ast()
+	var tree Expression
+	if N == 0 {
+		// pool of shared formulas whose builtins touch library state (patterns, rounding)
+		text := []string{"[regexp('a', 'a'), regexp('b', 'b+'), regexp('ab', 'c')]", "[round(2.5), 7 / 2, toString(1.50)]", "x > 1 ? lpad('a', '0', 3) : regexp('(', '(')"}[vpChoice("pool", 3)]
+		code, err := ParseSourceCode([]byte(text))
+		if err != nil {
+			vpAssert("C09/shared/pool-parses", false)
+			return
+		}
+		tree = code.Expression
+	} else {
+		budget := N
+		prog := vpGenProg(&budget, D)
+		tree = prog.ast()
+	}
 	// the text parsed concurrently by the other goroutine: a small pool (its byte-level
 	// behaviour is C08/parse's subject; multiplying both spaces would not add coverage)
 	other := []byte([]string{"1 +", "a.b(", "'x\r\n", "ok + 1"}[vpChoice("o", 4)])
